@@ -108,8 +108,22 @@ theorem jpegls_near_bound (P : Nat) (N : Int) (h : Admissible P N) (comps : Nat)
     ∃ ws recs, JpegLsScanL.encodeImage (traits P N) w comps lines = .ok (ws, recs) ∧
       Lockstep.AllRel (Lockstep.AllRel (JpegLsScanL.PixClose N)) recs lines ∧
       (∀ l ∈ recs, ∀ p ∈ l, JpegLsScanL.PixOk comps ((2 : Int) ^ P - 1) p) ∧
-      ∀ rest, JpegLsScanL.decodeImage (traits P N) w lines.length comps (Golomb.writesBits ws ++ rest) = .ok (recs, rest) :=
-  JpegLsScanL.image_roundtrip P N h comps hc w lines hl
+      ∀ rest, JpegLsScanL.decodeImage (traits P N) w lines.length comps (Golomb.writesBits ws ++ rest) = .ok (recs, rest) := by
+  obtain ⟨ws, recs, he, hcl, hok, _, hd⟩ := JpegLsScanL.image_roundtrip P N h comps hc w lines hl
+  exact ⟨ws, recs, he, hcl, hok, hd⟩
+
+/-- (6b) the same at BYTE level (encoder side): the un-stuffed scan bytes of the `GolombWriter` model decode
+    to `recs`; only zero padding is left over -/
+theorem jpegls_near_bound_bytes (P : Nat) (N : Int) (h : Admissible P N) (comps : Nat) (hc : 1 ≤ comps) (w : Nat)
+    (lines : List (List JpegLsScanL.Pixel))
+    (hl : ∀ l ∈ lines, JpegLsScanL.LineOk comps ((2 : Int) ^ P - 1) w l) :
+    ∃ ws recs k, JpegLsScanL.encodeImage (traits P N) w comps lines = .ok (ws, recs) ∧
+      Lockstep.AllRel (Lockstep.AllRel (JpegLsScanL.PixClose N)) recs lines ∧
+      (∀ l ∈ recs, ∀ p ∈ l, JpegLsScanL.PixOk comps ((2 : Int) ^ P - 1) p) ∧
+      JpegLsScanL.decodeImage (traits P N) w lines.length comps
+        (Golomb.destuff (Golomb.finish (Golomb.writeAll Golomb.Writer.new ws)).out false) =
+        .ok (recs, List.replicate k false) :=
+  JpegLsScanL.image_bytes_roundtrip P N h comps hc w lines hl
 
 /-- per sample: what `PixClose` / `AllRel` say at a given line, column and component -/
 theorem jpegls_near_bound_sample (N : Int) (recs lines : List (List JpegLsScanL.Pixel))
